@@ -493,7 +493,7 @@ class Fold:
         if callable(self.inline):
             cands = [g for g in cands if self.inline(q, g)]
         else:
-            cands = [g for g in cands if g.j.get("internal") and g.file == root.file]
+            cands = [g for g in cands if g.j.get("internal") and (g.file == root.file or g.unit == root.unit)]
         if len(cands) != 1 or cands[0] in getattr(self, "stack", []) or cands[0] is root:
             return None
         return ("func", cands[0])
@@ -1091,6 +1091,8 @@ class Fold:
         cond = None
         if s.get("cond") is not None and k != "do":
             cond = self.ev(s["cond"], benv)
+        self.loops = getattr(self, "loops", [])
+        self.loops.append({"lid": lid, "node": s, "cond": cond, "init": {key: old for key, (old, a) in start.items()}, "syms": {key: a for key, (old, a) in start.items()}})
         mark = len(self.guards)
         self.guards.append((("loop", lid, cond), True, s))
         self.begin_loop()
